@@ -735,6 +735,8 @@ def all_operations(api, rng):
     ops.append(Call('config_gen1_int', setters=[('with_threshold', [rng.randint(1, 255)]), ('with_duration', [rng.randint(1, 65535)])]))
     ops.append(Call('config_fifo', setters=[('with_watermark_thresh', [rng.randint(1, 1024)])]))
     ops.append(Call('config_tap', setters=[('with_sensitivity', [rng.choice(['SENS1', 'SENS5'])])]))
+    ops.append(Call('config_fifo', setters=[('with_read_disabled', [False])]))
+    ops.append(Call('read_fifo_frames', [rng.choice([255, 256, 257, 300, 512, 1024])]))
     return ops
 
 
@@ -744,6 +746,8 @@ def api_programs(api, rng, n, ctors=('i2c', 'spi', 'spi3'), fault_rate=0.0):
         p = P.random_program(api, rng, 'a%d' % k, max_calls=8, allow_load=False, fault_rate=fault_rate, ctor=rng.choice(ctors))
         if fault_rate == 0.0:
             p.ctor_faults = []
+        if k % 10 == 0:
+            p.calls.append(Call('read_fifo_frames', [rng.choice([0, 255, 256, 257, 511, 1024])]))
         out.append(p)
     return out
 
@@ -890,8 +894,36 @@ def mon_c14(api, rng, budget, variants):
                 break
         if msg:
             viol.append(violation('C14', p, msg))
+    # the same bus failure on both transports: transaction t fails over I2C <-> the data call of transaction t fails over SPI
+    ops = all_operations(api, rng)
+    probes = [Prog('pr%d' % i, 'i2c', rich_prefix() + [op], fifo=bytes([0x48, 2]), pos=bytes([0, 8] * 3), neg=bytes(6)) for i, op in enumerate(ops)]
+    pimpl = corr.run_impl(probes, 'default', dump_each=True, tag='mon14p')
+    fa, fb = [], []
+    for p0 in probes:
+        r0 = implrun.records(p0, pimpl[p0.id])[-1]
+        evs = [e for e in implrun.reg_events(r0.raw) if e[0] in ('w', 'r')]
+        off = 0
+        for t, e in enumerate(evs[:6]):
+            op = p0.calls[-1]
+            ca = Call(op.op, op.args, op.setters, faults=[t])
+            cb = Call(op.op, op.args, op.setters, faults=[off + 1])
+            fa.append(Prog('%s_i%d' % (p0.id, t), 'i2c', rich_prefix() + [ca, Call('get_data')], p0.ro, p0.fifo, p0.pos, p0.neg))
+            fb.append(Prog('%s_s%d' % (p0.id, t), 'spi', rich_prefix() + [cb, Call('get_data')], p0.ro, p0.fifo, p0.pos, p0.neg))
+            off += 3 if e[0] == 'w' else 4
+    fimpl = corr.run_impl(fa + fb, 'default', dump_each=True, tag='mon14f')
+    for p, q in zip(fa, fb):
+        ra, rb = implrun.records(p, fimpl[p.id]), implrun.records(q, fimpl[q.id])
+        cases += 1
+        for x, y in zip(ra[1:], rb[1:]):
+            if (x.status, x.err, x.payload) != (y.status, y.err, y.payload):
+                viol.append(violation('C14', p, 'with the same register transaction failing on the bus, call %r returns %s over I2C and %s over SPI' % (x.call, x.result_str(), y.result_str())))
+                break
+            if x.regs != y.regs:
+                viol.append(violation('C14', p, 'with the same register transaction failing on the bus, the device states differ after %r' % (x.call,)))
+                break
     return {'cases': cases, 'violations': viol[:20], 'samples': [base[0].describe()],
-            'notes': ['every program run over both real transports against identical simulated chips; decoded register-level journals, results and register files compared']}
+            'notes': ['every program run over both real transports against identical simulated chips; decoded register-level journals, results and register files compared; '
+                      'plus every operation with the same register transaction failing on the bus over both transports']}
 
 
 def judge_c14(prog, recs):
@@ -1112,4 +1144,218 @@ PROPS['C16'] = {
                  'FIFO power flag and the interrupt enables the driver compares requests with are the device\'s',
     'assumptions': ['chip-select pin failures over SPI (a write may be applied although the call reports ChipSelectPinError) are outside the '
                     'property\'s assumption and outside this theorem; over I2C the HAL-level fault model coincides with T_reg'],
+}
+
+
+# ----------------------------------------------------------------------------- C19 / C11 / C18
+def fifo_power_programs(api, rng, n):
+    out = []
+    for k in range(n):
+        calls = []
+        for _ in range(rng.randint(1, 7)):
+            x = rng.random()
+            if x < 0.4:
+                calls.append(Call('config_fifo', setters=[('with_read_disabled', [rng.random() < 0.6])] + (P.rand_setters(api, rng, api.maker['config_fifo'], 1) if rng.random() < 0.4 else []),
+                                  faults=[rng.randint(0, 3)] if rng.random() < 0.25 else []))
+            elif x < 0.75:
+                calls.append(Call('read_fifo_frames', [rng.choice([0, 1, 2, 15, 16, 64, 255, 256, 1024, rng.randint(0, 1024)])]))
+            elif x < 0.82:
+                calls.append(Call('soft_reset', faults=[rng.randint(0, 1)] if rng.random() < 0.3 else []))
+            elif x < 0.88:
+                calls.append(Call('perform_self_test', faults=[rng.randint(0, 18)] if rng.random() < 0.5 else []))
+            elif x < 0.94:
+                calls.append(Call(rng.choice(['flush_fifo', 'clear_step_count'])))
+            else:
+                mk = rng.choice(sorted(api.maker))
+                calls.append(Call(mk, setters=P.rand_setters(api, rng, api.maker[mk], 2)))
+        calls.append(Call('read_fifo_frames', [rng.choice([0, 3, 15])]))
+        pos, neg = P.selftest_bytes(rng, True)
+        out.append(Prog('fp%d' % k, 'i2c', calls, fifo=bytes(rng.getrandbits(8) for _ in range(rng.randint(0, 20))), pos=pos, neg=neg))
+    return out
+
+
+def check_fifo_guard(prog, recs):
+    for r in recs[1:]:
+        if r.call.faults or r.regs_before is None and r is not recs[1]:
+            continue
+        before = r.regs_before if r.regs_before is not None else None
+        if r.call.op == 'read_fifo_frames' and before is not None:
+            off = before[0x29] & 1
+            ev = implrun.reg_events(r.raw)
+            if off:
+                if not (r.status == 'err' and r.err == 'ConfigBuildError' and r.tok == 'FifoReadWhilePwrDisable'):
+                    return 'device register 0x29 = 0x%02X (read circuit off) but %r returned %s' % (before[0x29], r.call, r.result_str())
+                if ev:
+                    return 'refused FIFO read caused bus traffic %r' % (ev,)
+            else:
+                if r.status != 'ok':
+                    return 'device register 0x29 = 0x%02X (read circuit on) but %r returned %s' % (before[0x29], r.call, r.result_str())
+                if ev != [('r', 0x14, r.call.args[0])]:
+                    return '%r issued %r, expected one burst of that length from 0x14' % (r.call, ev)
+        msg = expected_reads(prog, r) if r.ok() else None
+        if msg:
+            return msg
+    return None
+
+
+def mon_c19(api, rng, budget, variants):
+    programs = fifo_power_programs(api, rng, budget)
+    recs = run_monitor_programs(programs)
+    viol = [violation('C19', p, m) for p in programs for m in [check_fifo_guard(p, recs[p.id])] if m]
+    return {'cases': len(programs), 'violations': viol[:20], 'samples': [programs[0].describe()],
+            'notes': ['sequences of FIFO power settings (accepted, failed on the bus, with other FIFO settings, self-test, soft reset) and reads of '
+                      'length 0..1024; refusal judged against bit 0 of the simulated chip register 0x29']}
+
+
+PROPS['C19'] = {
+    'targets': ['props/C19.vo'],
+    'theorems': [('props.C19', n) for n in ['c19_guard_is_bit0', 'c19_read_shape', 'c19_refused_iff_device_flag', 'c19_commands', 'c19_reset_reenables']]
+                + [('props.C16', 'c16_every_history')],
+    'corr_gen': lambda api, rng, n: fifo_power_programs(api, rng, n),
+    'corr_n': (300, 4000), 'monitor': mon_c19, 'monitor_n': (600, 20000), 'judge': check_fifo_guard,
+    'statement': 'read_fifo_frames is, by conversion, a guard on bit 0 of the shadow FIFO_PWR_CONFIG followed by ONE burst read of exactly the buffer '
+                 'length from 0x14; in every reachable world (C16 invariant, any fault history) the guard refuses with FifoReadWhilePwrDisable and '
+                 'no bus traffic iff bit 0 of the DEVICE register 0x29 is set; flush / clear-step-count / soft-reset send 0xB0 / 0xB1 / 0xB6 to '
+                 '0x7E; the reset shadow has the flag clear',
+}
+
+
+def reset_programs(api, rng, n):
+    """(history; soft_reset; follow-up) and its twin (fresh; follow-up) with the same chip data"""
+    out = []
+    for k in range(n):
+        hist = [P.random_call(api, rng, allow_load=False, fault_rate=0.25) for _ in range(rng.randint(1, 8))]
+        # the read-only data (step counter, FIFO content) is not part of the reset state compared here
+        hist = [c for c in hist if c.op not in ('clear_step_count', 'flush_fifo', 'read_fifo_frames')]
+        follow = [P.random_call(api, rng, allow_load=False, fault_rate=0.0) for _ in range(rng.randint(1, 6))]
+        # make coincidences with pre-reset values likely: repeat some history requests after the reset
+        follow += [Call(c.op, c.args, c.setters) for c in hist if c.op in api.maker and rng.random() < 0.6]
+        ro, _fifo, pos, neg = P.random_scenario(rng)
+        ro = bytes([0x90]) + ro[1:]
+        # injected failures are bus failures: over SPI an index may hit a chip-select pin call, which the property does not cover
+        ctor = 'i2c' if any(c.faults for c in hist) else rng.choice(['i2c', 'spi'])
+        a = Prog('ra%d' % k, ctor, hist + [Call('soft_reset')] + follow, ro, b'', pos, neg)
+        b = Prog('rb%d' % k, ctor, follow, ro, b'', pos, neg)
+        a.n_hist, a.twin = len(hist) + 1, b
+        out += [a, b]
+    return out
+
+
+def mon_c11(api, rng, budget, variants):
+    programs = reset_programs(api, rng, budget // 2)
+    recs = run_monitor_programs(programs)
+    viol, cases = [], 0
+    for p in programs:
+        if not hasattr(p, 'twin'):
+            continue
+        ra, rb = recs[p.id], recs[p.twin.id]
+        if len(ra) <= p.n_hist:
+            continue
+        rs = ra[p.n_hist]
+        if not rs.ok():
+            continue
+        cases += 1
+        ev = implrun.reg_events(rs.raw)
+        msg = None
+        if ev != [('w', 0x7E, 0xB6), ('r', 0x0D, 1)]:
+            msg = 'soft_reset issued %r' % (ev,)
+        for x, y in zip(ra[p.n_hist + 1:], rb[1:]):
+            if msg:
+                break
+            if (x.status, x.payload, x.err, x.tok) != (y.status, y.payload, y.err, y.tok):
+                msg = 'after (history; soft_reset) %r returns %s, on a fresh driver %s' % (x.call, x.result_str(), y.result_str())
+            elif implrun.reg_events(x.raw) != implrun.reg_events(y.raw):
+                msg = 'after (history; soft_reset) %r issues %r, on a fresh driver %r' % (x.call, implrun.reg_events(x.raw), implrun.reg_events(y.raw))
+            elif x.regs[25:124] + x.regs[125:126] != y.regs[25:124] + y.regs[125:126]:
+                msg = 'device state after %r differs from the fresh run' % (x.call,)
+        if msg:
+            viol.append(violation('C11', p, msg))
+    return {'cases': cases, 'violations': viol[:20], 'samples': [programs[0].describe()],
+            'notes': ['differential: (history with rejected and bus-failed calls; soft_reset; follow-up) vs (fresh driver + fresh chip; follow-up); the '
+                      'follow-up repeats history requests so that stale belief would coincide with a pre-reset value; registers 0x19..0x7B, 0x7D compared']}
+
+
+def judge_c11(prog, recs):
+    return None
+
+
+PROPS['C11'] = {
+    'targets': ['props/C11.vo', 'props/C13.vo'],
+    'theorems': [('props.C11', n) for n in ['c11_reset_state', 'c11_follow_up', 'c11_registers_at_reset']] + [('props.C13', 'c13_every_operation')],
+    'corr_gen': lambda api, rng, n: reset_programs(api, rng, n // 2),
+    'corr_n': (300, 4000), 'monitor': mon_c11, 'monitor_n': (400, 10000), 'judge': judge_c11,
+    'statement': 'for EVERY world (any history, any earlier failure, any fault plan): if soft_reset returns Ok its journal is [write 0x7E<-0xB6; read '
+                 '0x0D x1], the shadow is the default configuration and the chip is a power-on chip with the same read-only data - exactly the '
+                 'state of a newly constructed driver - hence the register-level behaviour of every follow-up program is identical; over SPI the '
+                 'call also ends with chip-select high and the decoder idle (C13)',
+    'assumptions': ['IF_CONF (0x7C, 3-wire mode) belongs to the transport constructor and is not part of the compared state (DESIGN.md section 10)'],
+}
+
+
+def ctor_programs(api, rng, n):
+    out = []
+    k = 0
+    for ctor in ('i2c', 'spi', 'spi3'):
+        for idv in range(256):
+            ro = bytearray(25)
+            ro[0] = idv
+            calls = [Call('get_id')] if idv == 0x90 else []
+            out.append(Prog('id%d' % k, ctor, calls, ro))
+            k += 1
+    # first requests on a fresh driver
+    for mk in sorted(api.maker):
+        out.append(Prog('fr%d' % k, rng.choice(['i2c', 'spi']), [Call(mk)]))
+        k += 1
+        for _ in range(max(1, n // 40)):
+            out.append(Prog('fr%d' % k, rng.choice(['i2c', 'spi']), [Call(mk, setters=P.rand_setters(api, rng, api.maker[mk], rng.randint(1, 3)))]))
+            k += 1
+    return out
+
+
+def check_ctor(prog, recs):
+    r0 = recs[0]
+    idv = prog.ro[0]
+    ev = implrun.reg_events(r0.raw)
+    want = {'i2c': [('r', 0, 1)], 'spi': [('r', 0, 1), ('r', 0, 1)], 'spi3': [('r', 0, 1), ('r', 0, 1), ('w', 0x7C, 1)]}[prog.ctor]
+    if ev != want:
+        return 'constructor %s issued %r, expected %r' % (prog.ctor, ev, want)
+    if idv == 0x90 and r0.status != 'ok':
+        return 'constructor %s failed on chip id 0x90: %s' % (prog.ctor, r0.result_str())
+    if idv != 0x90 and not (r0.status == 'err' and r0.err == 'ChipIdReadFailed'):
+        return 'constructor %s on chip id 0x%02X returned %s' % (prog.ctor, idv, r0.result_str())
+    if prog.id.startswith('fr') and len(recs) > 1:
+        r = recs[1]
+        reset = [P.ds.REGS[n][1] for n in P.ds.REGS]
+        before = [0] * 128
+        for (a, rst, _m) in P.ds.REGS.values():
+            if a < 128:
+                before[a] = rst
+        if r.ok():
+            want_blk = dseval.expected_block(r.call.op, r.call.setters, before)
+            written = [e[1] for e in implrun.reg_events(r.raw) if e[0] == 'w']
+            need = sorted(a for a, v in want_blk.items() if v != before[a])
+            if sorted(set(written)) != need:
+                return 'first request %r wrote registers %r; those differing from the reset values are %r' % (r.call, sorted(set(written)), need)
+    return None
+
+
+def mon_c18(api, rng, budget, variants):
+    programs = ctor_programs(api, rng, budget)
+    recs = run_monitor_programs(programs)
+    viol = [violation('C18', p, m) for p in programs for m in [check_ctor(p, recs[p.id])] if m]
+    return {'cases': len(programs), 'violations': viol[:20], 'samples': [programs[0x90].describe()],
+            'notes': ['all 256 chip-id values x the three constructors (exhaustive); first request per builder on a fresh driver: empty request writes '
+                      'nothing, any other writes exactly the registers whose requested byte differs from the datasheet reset value']}
+
+
+PROPS['C18'] = {
+    'targets': ['props/C18.vo'],
+    'theorems': [('props.C18', n) for n in ['c18_constructor', 'c18_defaults_are_datasheet', 'c18_3wire']],
+    'corr_gen': lambda api, rng, n: ctor_programs(api, rng, 40),
+    'corr_n': (800, 800), 'monitor': mon_c18, 'monitor_n': (800, 4000), 'judge': check_ctor,
+    'statement': 'hand model of the three constructors (tied by correspondence over all 256 id values x 3 constructors on every run): a driver is '
+                 'returned iff the id register reads 0x90, else ChipIdReadFailed; register-level events: one id read (I2C), a throw-away read then '
+                 'the id read (SPI), additionally IF_CONF 0x7C <- 0x01 (3-wire); the default shadow configuration equals the datasheet reset table '
+                 'on all 57 registers; the first-request clause follows from C01/C08 at the initial world and is exercised by the monitor',
+    'exhaustive': True,
 }
